@@ -37,6 +37,14 @@ def guarded(fn, seconds=10, retry=False):
 
 
 def _guarded(fn, seconds):
+    import threading
+    if threading.current_thread() is not threading.main_thread():
+        try:                       # no alarm outside the main thread (C12's thread clause)
+            return 'ok', fn()
+        except BaseException as e:  # noqa
+            if isinstance(e, (KeyboardInterrupt, SystemExit)):
+                raise
+            return 'exc', e
     old = signal.signal(signal.SIGALRM, _alarm)
     signal.alarm(seconds)
     try:
